@@ -8,6 +8,7 @@ import json, os, subprocess, sys, shutil, time, re
 
 SLOW = ["tests/test_apps.py"]
 WT = os.environ.get("SEEDED_WT", "/tmp/mut_wt")
+TIER = os.environ.get("SEEDED_TIER", "quick")
 
 
 def sh(cmd, **kw):
@@ -63,8 +64,11 @@ def detect(d, props=None, seed=0):
     det = meta.get("detection", {})
     for p in props:
         t0 = time.time()
-        env = dict(os.environ, VERIF_REPO=WT, VERIF_SEED=str(seed))
-        s = subprocess.run(["/venv/bin/python", "/verif/run_check.py", p, "--tier", "quick"], cwd="/verif", env=env, capture_output=True, text=True, timeout=3600)
+        # evidence and replays of a run against a patched tree never land in /verif/evidence
+        side = f"/tmp/seeded_out/{os.path.basename(d)}"
+        os.makedirs(side, exist_ok=True)
+        env = dict(os.environ, VERIF_REPO=WT, VERIF_SEED=str(seed), VERIF_EVIDENCE=f"{side}/evidence", VERIF_REPLAYS=f"{side}/replays")
+        s = subprocess.run(["/venv/bin/python", "/verif/run_check.py", p, "--tier", TIER], cwd="/verif", env=env, capture_output=True, text=True, timeout=4 * 3600)
         viol = [l for l in s.stdout.splitlines() if l.startswith("VIOLATION")]
         sigs = []
         for v in viol[:6]:
@@ -75,13 +79,12 @@ def detect(d, props=None, seed=0):
                     sigs.append({k: sg.get(k) for k in ("monitor", "kind", "op", "via", "instr", "feature", "query") if sg.get(k) is not None})
                 except Exception:
                     pass
-        det[p] = {"exit": s.returncode, "violations": len(viol), "sigs": sigs, "last": (s.stdout.strip().splitlines() or [""])[-1][:200], "wall_s": round(time.time() - t0), "seed": seed}
-        print(d, p, "exit", s.returncode, "violations", len(viol), sigs[:2], det[p]["last"])
+        key = p if (TIER == "quick" and seed == 0) else f"{p}:{TIER}:{seed}"
+        det[key] = {"prop": p, "exit": s.returncode, "violations": len(viol), "sigs": sigs, "last": (s.stdout.strip().splitlines() or [""])[-1][:200], "wall_s": round(time.time() - t0), "seed": seed, "tier": TIER}
+        print(d, p, "exit", s.returncode, "violations", len(viol), sigs[:2], det[key]["last"], flush=True)
     meta["detection"] = det
     json.dump(meta, open(f"{d}/meta.json", "w"), indent=1)
     fresh_wt()
-    # evidence files were rewritten by a run against a patched tree: they must be regenerated
-    # against /repo before committing (the caller's business)
 
 
 def keep(d):
@@ -121,6 +124,9 @@ if __name__ == "__main__":
     for d in sys.argv[2:]:
         d = d.rstrip("/")
         try:
-            {"confirm": confirm, "detect": detect, "keep": keep}[mode](d)
+            if mode == "detect":
+                detect(d, props=(os.environ.get("SEEDED_PROPS") or "").split(",") if os.environ.get("SEEDED_PROPS") else None, seed=int(os.environ.get("SEEDED_SEED", "0")))
+            else:
+                {"confirm": confirm, "keep": keep}[mode](d)
         except Exception as e:
             print(d, "ERROR", repr(e)[:300])
